@@ -55,6 +55,8 @@ type Recorder struct {
 	Plan   Plan
 	Fired  []string
 	AppErr string // "", "before" (error ack without calling ICS-20) or "after" (error ack after ICS-20 ran)
+	// Panic makes the planned fault a panic of the dependency instead of a returned error.
+	Panic bool
 }
 
 // Reset clears the recorder and installs a plan.
@@ -64,6 +66,7 @@ func (r *Recorder) Reset(p Plan) {
 	r.Plan = p
 	r.Fired = nil
 	r.AppErr = ""
+	r.Panic = false
 }
 
 // hit records the call and returns an injected error when the plan says so.
@@ -78,6 +81,10 @@ func (r *Recorder) hit(site string, req any) error {
 		err = fmt.Errorf("injected fault at %s call %d", site, k)
 		r.Fired = append(r.Fired, fmt.Sprintf("%s#%d", site, k))
 		c.Err = err.Error()
+		if r.Panic {
+			r.Calls = append(r.Calls, c)
+			panic(fmt.Sprintf("injected panic at %s call %d", site, k))
+		}
 	}
 	r.Calls = append(r.Calls, c)
 	return err
